@@ -632,38 +632,51 @@ func TestVerifC15(t *testing.T) {
 		{"delete-user", verifReq{Method: "POST", Path: "/admin/deleteUser", Form: url.Values{"username": {"m1"}}}, adminCk},
 	}
 	primaryBefore := c04DBDigest(side)
-	for _, mtd := range mutating {
+	// (twice: the primary not answering at all, and the primary accepting the statement but failing the read at once -
+	// a profile obtained in either situation is not the primary's current copy and must not be written back)
+	for _, omode := range []string{"hang", "read-fails-at-once"} {
 		gate.mu.Lock()
-		gate.Writes = nil
+		gate.QueryError = omode == "read-fails-at-once"
 		gate.mu.Unlock()
-		q := mtd.q
-		q.Cookies = verifCk(mtd.ck)
-		done := make(chan *verifResp, 1)
-		go func() { done <- env.Do(q.Build()) }()
-		var resp *verifResp
-		select {
-		case resp = <-done:
-		case <-time.After(20 * time.Second):
-			rep.Inconc("mutating route %s did not answer within 20 s during the outage", mtd.name)
-			continue
-		}
-		writes := gate.WriteAttempts()
-		var profileWrites []string
-		for _, w := range writes {
-			profileWrites = append(profileWrites, w.Kind+":"+w.Text)
-		}
-		rep.Eval(fmt.Sprintf("outage|%s|%d|writes=%d", mtd.name, resp.Code, len(writes)))
-		c := map[string]interface{}{"route": mtd.name, "status": resp.Code, "write_attempts_on_primary": profileWrites}
-		rep.Count("outage_mutations_checked", 1)
-		switch {
-		case resp.Code < 400:
-			rep.Violate("C15/outage/mutation-not-refused/"+mtd.name, "a profile-changing operation was not refused while the primary store was unreachable", c)
-		case len(writes) > 0 && mtd.name != "delete-user":
-			rep.Violate("C15/outage/write-attempted/"+mtd.name, "a handler that read the profile from the cache went on to write to the primary store (would overwrite newer data once the store is back)", c)
-		default:
-			rep.Sample("outage-refused:"+mtd.name, 1, c)
+		for _, mtd := range mutating {
+			gate.mu.Lock()
+			gate.Writes = nil
+			gate.mu.Unlock()
+			if omode != "hang" {
+				mtd.name += "(" + omode + ")"
+			}
+			q := mtd.q
+			q.Cookies = verifCk(mtd.ck)
+			done := make(chan *verifResp, 1)
+			go func() { done <- env.Do(q.Build()) }()
+			var resp *verifResp
+			select {
+			case resp = <-done:
+			case <-time.After(20 * time.Second):
+				rep.Inconc("mutating route %s did not answer within 20 s during the outage", mtd.name)
+				continue
+			}
+			writes := gate.WriteAttempts()
+			var profileWrites []string
+			for _, w := range writes {
+				profileWrites = append(profileWrites, w.Kind+":"+w.Text)
+			}
+			rep.Eval(fmt.Sprintf("outage|%s|%d|writes=%d", mtd.name, resp.Code, len(writes)))
+			c := map[string]interface{}{"route": mtd.name, "status": resp.Code, "write_attempts_on_primary": profileWrites}
+			rep.Count("outage_mutations_checked", 1)
+			switch {
+			case resp.Code < 400:
+				rep.Violate("C15/outage/mutation-not-refused/"+mtd.name, "a profile-changing operation was not refused while the primary store was unreachable", c)
+			case len(writes) > 0 && !strings.HasPrefix(mtd.name, "delete-user"):
+				rep.Violate("C15/outage/write-attempted/"+mtd.name, "a handler that read the profile from the cache went on to write to the primary store (would overwrite newer data once the store is back)", c)
+			default:
+				rep.Sample("outage-refused:"+mtd.name, 1, c)
+			}
 		}
 	}
+	gate.mu.Lock()
+	gate.QueryError = false
+	gate.mu.Unlock()
 	env.SetOutage(gate, false)
 	verifSQL.SetHook(pl, nil)
 	if c04DBDigest(side) != primaryBefore {
@@ -676,7 +689,7 @@ func TestVerifC15(t *testing.T) {
 	rep.Floor("mirror_syncs_equal", 30)
 	rep.Floor("fault_injections", 40)
 	rep.Floor("outage_auth_ok", 6)
-	rep.Floor("outage_mutations_checked", 14)
+	rep.Floor("outage_mutations_checked", 28)
 	rep.Floor("selfservice_live", 1)
 	rep.Floor("outage_selfservice_logins_checked", 2)
 }
